@@ -16,8 +16,11 @@ REPO_SRC = REPO / "src"
 MOCK = VERIF / "mock"
 TLA = VERIF / "tla"
 BUILD = VERIF / "build"
-EVIDENCE = VERIF / "evidence"
-REPLAYS = VERIF / "replays"
+# VERIF_OUT=<dir>: evidence and replay files of this run go there (used when checks are run against seeded changes,
+# so that /verif/evidence keeps describing /repo's unchanged tree)
+_OUT = Path(os.environ["VERIF_OUT"]) if os.environ.get("VERIF_OUT") else VERIF
+EVIDENCE = _OUT / "evidence"
+REPLAYS = _OUT / "replays"
 GUARD = "REDUINO_VERIF"
 NCPU = min(16, os.cpu_count() or 4)
 
